@@ -14,7 +14,7 @@ STRS = ['', 'a', 'abc', 'a,b,,c', '  pad ', 'AbC', 'abcabc', 'b']
 
 def plan(tier, seed):
     nsh = 16
-    n = 1920 if tier == 'quick' else 160000
+    n = 9600 if tier == 'quick' else 240000
     specs = [{'part': 'histories', 'n': n // nsh, 'shard': sh, 'nops': 30} for sh in range(nsh)]
     specs.append({'part': 'escapes', 'n': 400 if tier == 'quick' else 20000, 'shard': 0})
     return specs
